@@ -205,7 +205,7 @@ int main (int argc, char **argv) {
 	if (argc < 3) return 2;
 	in = fopen (argv[1], "r"); if (!in) return 2;
 	vt_open (argv[2]);
-	p_libsys_init ();
+	p_libsys_init (); p_libsys_shutdown (); p_libsys_init ();      /* the library is used after a shutdown / re-initialisation cycle */
 	while (fgets (line, sizeof line, in)) {
 		Cmd cm; char *p = line; char w1[24] = "", w2[24] = "", w3[24] = "", w4[24] = "", w5[24] = ""; int isbg = 0;
 		memset (&cm, 0, sizeof cm);
